@@ -5,7 +5,7 @@ from .. import facts, serde_audit
 from ..cfg import Cfg, bool_edges
 from ..common import place_field_names, arg_fields, arg_roots, calls_to, def_of, inst_of, method, target_of, blocks_assigning_field, gate_for
 from ..prov import Prov, flatten, field_names
-from ..util import fns_by_key, keyname, place_of, norm, last
+from ..util import fns_by_key, keyname, place_of, norm, last, with_closures
 
 LEVEL = "other"
 
@@ -82,7 +82,7 @@ def run(ck, tier):
         import traceback
         ck.refuted("R-C16-overlap", "internal:%s" % type(e).__name__, "", "rule could not run: %s" % traceback.format_exc()[-600:])
     ck.rule("R-C16-pipeline", "harper_wasm::Linter::lint: Document::new_from_vec(source, parser(language), self.dictionary) -> overlay -> LintGroup::lint(&document) -> restore -> remove_overlaps -> remove_ignored(.., &document) -> problem_text = span.get_content_string(&source) of the same source vector, in this order")
-    ck.rule("R-C16-samedoc", "ignore_lint / apply_suggestion build their Document from lint.language.create_parser() and self.dictionary; apply_suggestion applies suggestion.inner at lint.inner.span to the chars of the supplied text and returns them; clear_ignored_lints replaces the set; import_words -> extend_words -> synchronize_lint_dict (guarded only by 'count grew'); synchronize_lint_dict rebuilds dictionary and lint_group and re-merges the saved config")
+    ck.rule("R-C16-samedoc", "ignore_lint / apply_suggestion build their Document from lint.language.create_parser() and self.dictionary; apply_suggestion applies suggestion.inner at lint.inner.span to the chars of the supplied text and returns them; clear_ignored_lints replaces the set; import_words -> extend_words -> synchronize_lint_dict (unguarded, or guarded by 'some imported spelling is not in the user dictionary yet' - not by 'the count grew': a word can replace an entry that differs only by case); synchronize_lint_dict rebuilds dictionary and lint_group and re-merges the saved config")
     ck.rule("R-C16-serde", "wasm Lint/Suggestion/Span and the core types under them derive Serialize+Deserialize without asymmetric attributes; to_json/from_json use serde_json::to_string/from_str")
     ck.not_decided += ["returned lints lie inside the text and do not overlap (values)", "behavioural equality after export/import", "Suggestion::apply splice result (see C03)"]
     p = facts.load()
@@ -251,6 +251,7 @@ def import_words_sync(ck, byk, rule):
     dictionary grew', synchronize_lint_dict rebuilds the merged dictionary and the LintGroup (also an
     instance of R-C05-rebuild: a long-lived linter answers like a fresh one over the same words)."""
     f = wasm_fn(ck, byk, rule, "Linter::import_words")
+    p = facts.load()
     if f is not None:
         cfg = Cfg(f)
         pv = Prov(f)
@@ -266,14 +267,29 @@ def import_words_sync(ck, byk, rule):
                 if t["k"] == "switch" and cfg.dominates(bi, syn[0]) and cfg.dominates(ext[0], bi):
                     guards.append(bi)
             good = True
+            why = []
             for g in guards:
                 d = f.blocks[g]["t"]["discr"]
-                org = pv.trace_operand(d)
-                cmp_ok = any(o[0] == "bin" and o[1] in ("Gt", "Lt", "Ne", "Ge", "Le") for o in org)
-                wc = [o for o in arg_roots(f, pv, d) if o[0] == "call" and last(norm(o[3] or o[2] or "")) == "word_count"]
-                good = good and cmp_ok and len(wc) >= 1
+                roots = arg_roots(f, pv, d)
+                names = {last(norm(o[3] or o[2] or "")) for o in roots if o[0] == "call"}
+                # the flag may be computed in a closure (`words.iter().any(|w| !dict.contains_exact_word_str(w))`)
+                for o in roots:
+                    if o[0] == "call":
+                        for a in f.blocks[o[1]]["t"]["args"]:
+                            for x in pv.trace_operand(a):
+                                if x[0] == "agg" and x[1] == "closure" and x[2] in p.fns:
+                                    names |= {method(t3) for c3 in with_closures(p, p.fns[x[2]]) for _, t3 in c3.calls()}
+                exact = names & {"contains_exact_word_str", "contains_exact_word"}
+                if exact:
+                    why.append("exact-spelling test (%s)" % ", ".join(sorted(exact)))
+                elif "word_count" in names:
+                    good = False
+                    why.append("word_count() comparison: an imported word that replaces an entry differing only by case changes the dictionary without making it grow, and the linter keeps answering from the old one")
+                else:
+                    good = False
+                    why.append("a test through %s: whether it notices every change of the dictionary is not established (a case-folding look-up does not)" % (sorted(names)[:4] or "?"))
             ok = good and len(guards) <= 1
-            detail += "; guards between them: %d, each a comparison of word_count() values: %s" % (len(guards), good)
+            detail += "; guards between them: %d (%s)" % (len(guards), "; ".join(why) or "none")
         ck.decide(rule, "Linter::import_words", ok, f.span, detail)
 
 
